@@ -303,6 +303,11 @@ def correspond(ctx):
         (False, None, [('c', 21, False, 'plain')], ('c', 21, True, 'poly', 2, False, False)),
         (False, (20, True), [('c', 20, False, 'spline', 5, 3, False), ('c', 20, False, 'spline', 3, 5, False)],
          ('c', 20, False, 'spline', 5, 3, False)),
+        # duplicate x: a call that raised 'x-values must be unique' must not change what later unique-x calls do
+        (False, (20, False), [('c', 20, True, 'plain')], ('c', 20, True, 'plain')),
+        (False, (20, False), [('c', 20, True, 'poly', 2, False, False), ('c', 20, False, 'plain')], ('c', 20, True, 'plain')),
+        (False, (33, False), [('c', 33, True, 'plain'), ('c', 33, False, 'poly', 1, False, True)], ('c', 33, True, 'poly', 1, False, False)),
+        (False, (20, False), [('c', 20, True, 'fail')], ('c', 20, True, 'plain')),
     ]
     cases = directed + [gen_history(ctx, rng) for _ in range(400 if ctx.thorough else 90)]
     for two_d, given, ops, probe in cases:
